@@ -11,6 +11,23 @@ import (
 // Network and authority errors. DNSSEC-specific sentinels live in
 // the dnssec package.
 var (
+	// Validation-path failures of the resolver itself. They used to be untyped
+	// fmt.Errorf values: the SERVFAIL built from them said EDE 0 "Other", and a
+	// consumer that recognises a validation failure by its code (DNS64) took it
+	// for a plain SERVFAIL and synthesised over it.
+	errDSProofMissing = &dnsutil.EDEError{
+		Code:    dns.ExtendedErrorCodeNSECMissing,
+		Message: "DS or NSEC records not found",
+	}
+	errRootKeysNotVerified = &dnsutil.EDEError{
+		Code:    dns.ExtendedErrorCodeDNSBogus,
+		Message: "root zone keys not verified",
+	}
+	errDSSetEmpty = &dnsutil.EDEError{
+		Code:    dns.ExtendedErrorCodeDNSBogus,
+		Message: "DS RR set empty",
+	}
+
 	errMaxDepth = &dnsutil.EDEError{
 		Code:    dns.ExtendedErrorCodeOther,
 		Message: "Maximum recursion depth exceeded",
